@@ -23,18 +23,21 @@ type genCtx struct {
 	// sweepKind: the first forged block of this history is an otherwise perfect, publisher-signed block whose
 	// single transaction has exactly this defect (every kind of badKinds gets its turn across the histories of
 	// a run), so that each hard rule is met alone on the block path, not only mixed with other defects
-	sweepKind    string
-	r            *Rng
-	emit         func(string)
-	prec         uint64 // droplet multiple for valid amounts (10^(6-prec))
-	burn         uint64
-	bigCoins     bool
-	futureTime   uint64
-	avoidPending bool
-	conflictPct  int
-	spent        []cipher.SHA256    // inputs of accepted blocks (for re-spend attempts)
-	pending      []coin.Transaction // txns injected so far in this history
-	blocks       []coin.SignedBlock // accepted blocks (for replays / duplicates)
+	sweepKind      string
+	sweepShared    bool
+	sweepSharedPos int // which of the 3x3 position combinations the shared input takes in the sweep block
+	maxtxn         uint64
+	r              *Rng
+	emit           func(string)
+	prec           uint64 // droplet multiple for valid amounts (10^(6-prec))
+	burn           uint64
+	bigCoins       bool
+	futureTime     uint64
+	avoidPending   bool
+	conflictPct    int
+	spent          []cipher.SHA256    // inputs of accepted blocks (for re-spend attempts)
+	pending        []coin.Transaction // txns injected so far in this history
+	blocks         []coin.SignedBlock // accepted blocks (for replays / duplicates)
 }
 
 func (g *genCtx) node(name string) *node { return world.nodes[name] }
@@ -130,7 +133,30 @@ func ownerKey(u coin.UxOut) cipher.SecKey {
 
 // validTxn builds a transaction that satisfies hard and (usually) soft rules against n's head.
 // kind selects a deliberate deviation; "" = valid.
+// padOutputs replaces outs[0] by itself minus the padding plus n further outputs with pairwise different
+// (address, coins) and the given hours; returns outs unchanged when outs[0] cannot pay for them
+func padOutputs(outs []coin.TransactionOutput, n int, unit uint64, hours func(i int) uint64) []coin.TransactionOutput {
+	var total uint64
+	pad := make([]coin.TransactionOutput, n)
+	for i := range pad {
+		pad[i] = coin.TransactionOutput{Address: keys[i%6].addr, Coins: unit * uint64(1+i/6), Hours: hours(i)}
+		total += pad[i].Coins
+	}
+	if len(outs) == 0 || outs[0].Coins <= total+unit {
+		return outs
+	}
+	first := outs[0]
+	first.Coins -= total
+	return append(append([]coin.TransactionOutput{first}, outs[1:]...), pad...)
+}
+
 func (g *genCtx) makeTxn(n *node, kind string) (coin.Transaction, bool) {
+	// "oversize" / "oversize-<kind>": the same transaction padded with outputs until it exceeds the configured
+	// maximum transaction size (a SOFT rule) — alone, and combined with a hard-rule violation
+	oversize := strings.HasPrefix(kind, "oversize")
+	if oversize {
+		kind = strings.TrimPrefix(strings.TrimPrefix(kind, "oversize"), "-")
+	}
 	uxs, headTime := spendable(n)
 	if len(uxs) == 0 {
 		return coin.Transaction{}, false
@@ -369,6 +395,15 @@ func (g *genCtx) makeTxn(n *node, kind string) (coin.Transaction, bool) {
 		if spec.outs[0].Coins > 2*unit {
 			spec.outs[0].Coins -= 2 * unit
 		}
+	case "outhours-ovf-many":
+		// 257 outputs, each with hours below 2^56, whose exact sum is 2^64 + 1: only a checked sum over ALL outputs
+		// refuses it at pool admission (256 x (2^56 - 1) + 257)
+		spec.outs = padOutputs(spec.outs, 257, unit, func(i int) uint64 {
+			if i < 256 {
+				return 1<<56 - 1
+			}
+			return 257
+		})
 	case "length":
 		spec.post = func(t *coin.Transaction) { t.Length += uint32(1 + r.Intn(3)) }
 	case "length0":
@@ -393,12 +428,15 @@ func (g *genCtx) makeTxn(n *node, kind string) (coin.Transaction, bool) {
 			t.UpdateHeader() //nolint
 		}
 	}
+	if oversize && g.maxtxn > 0 {
+		spec.outs = padOutputs(spec.outs, int(g.maxtxn/37)+4, unit, func(int) uint64 { return 0 })
+	}
 	t := buildTxn(spec)
 	return t, true
 }
 
 var badKinds = []string{"nofee", "lowfee", "hours+", "hours+1", "coins+", "coins-", "coins+1", "coins-1", "zerocoin", "dupout", "unknown-in", "dup-in",
-	"wrong-signer", "badsig", "unsigned", "precision", "outhours-ovf", "coins-wrap-mid", "coins-wrap-last", "legacy-mint", "length", "length0", "type", "innerhash", "null-addr", "respend"}
+	"wrong-signer", "badsig", "unsigned", "precision", "outhours-ovf", "coins-wrap-mid", "coins-wrap-last", "legacy-mint", "outhours-ovf-many", "oversize", "oversize-unknown-in", "oversize-wrong-signer", "oversize-coins+", "oversize-dup-in", "length", "length0", "type", "innerhash", "null-addr", "respend"}
 
 func txHex(t *coin.Transaction) string {
 	b, err := t.Serialize()
@@ -464,8 +502,9 @@ func ledgerGen(r *Rng, tier string, emit func(string)) {
 	if v := os.Getenv("VERIF_HISTORIES"); v != "" {
 		nHist, _ = strconv.Atoi(v)
 	}
+	gi := 0 // index among the generic histories: the sweeps advance with it, so every kind gets its turn
 	for h := 0; h < nHist; h++ {
-		g := &genCtx{r: r, emit: emit, sweepKind: badKinds[h%len(badKinds)]}
+		g := &genCtx{r: r, emit: emit, sweepKind: badKinds[gi%len(badKinds)], sweepShared: gi%2 == 0, sweepSharedPos: gi / 2 % 9}
 		if (profile == "c05" && h%3 == 1) || (profile != "c05" && h%12 == 7) {
 			tieHistory(g)
 			continue
@@ -478,6 +517,7 @@ func ledgerGen(r *Rng, tier string, emit func(string)) {
 			}
 			continue
 		}
+		gi++
 		genHistory(g, profile)
 	}
 }
@@ -500,6 +540,7 @@ func genHistory(g *genCtx, profile string) {
 	if r.Chance(50) && profile != "c05" {
 		maxtxn = 32768
 	}
+	g.maxtxn = maxtxn
 	maxblk := maxtxn
 	if r.Chance(50) {
 		maxblk = maxtxn * uint64(1+r.Intn(3))
@@ -520,6 +561,13 @@ func genHistory(g *genCtx, profile string) {
 	}
 	for i := 0; i < nOps; i++ {
 		g.step(profile)
+	}
+	if !alive() {
+		return
+	}
+	// end of the history: a start-up on an address index that lags a few blocks behind the head
+	if r.Chance(60) {
+		g.emit("rebuild " + []string{"F", "P"}[r.Intn(2)] + " addrindex-lag")
 	}
 	if !alive() {
 		return
@@ -946,6 +994,8 @@ func (g *genCtx) step(profile string) {
 			t := g.pending[r.Intn(len(g.pending))]
 			g.inject(&t)
 		}
+	case c >= 52 && c < 56 && profile != "c05":
+		g.laggingFollower()
 	case c < 70 && !(g.bigCoins && r.Chance(50)): // publisher makes a block from its pool; both nodes execute it
 		when := g.nextWhen()
 		g.emit("mkblock " + u(when))
@@ -976,9 +1026,68 @@ func (g *genCtx) step(profile string) {
 		if r.Chance(50) {
 			g.emit("restart " + []string{"P", "F"}[r.Intn(2)])
 		} else {
-			g.emit("rebuild " + []string{"P", "F"}[r.Intn(2)] + " " + []string{"history", "histtxns", "addrindex"}[r.Intn(3)])
+			g.emit("rebuild " + []string{"P", "F"}[r.Intn(2)] + " " + []string{"history", "histtxns", "addrindex", "addrindex-lag", "addrindex-lag"}[r.Intn(5)])
 		}
 	}
+}
+
+// laggingFollower: the publisher gets two blocks ahead; the follower is offered the SECOND one first (refused: not
+// the next block), then the first, then a FORGED copy of the second (foreign signature, damaged signature or a
+// substituted body under the genuine header), and only then the genuine second block.  Having seen a block's
+// genuine copy once must never vouch for a later copy.
+func (g *genCtx) laggingFollower() {
+	r := g.r
+	if !alive() || chainLen(g.node("P")) != chainLen(g.node("F")) {
+		return
+	}
+	var made []coin.SignedBlock
+	for i := 0; i < 2; i++ {
+		t, ok := g.makeTxn(g.node("P"), "")
+		if !ok {
+			return
+		}
+		g.emit("injf P " + txHex(&t))
+		g.emit("mkblock " + u(g.nextWhenSmall()))
+		sb := lastMade
+		lastMade = nil
+		if sb == nil {
+			break
+		}
+		before := chainLen(g.node("P"))
+		g.emit("exec P " + encodeBlock(sb))
+		if chainLen(g.node("P")) == before {
+			break
+		}
+		made = append(made, *sb)
+		g.blocks = append(g.blocks, *sb)
+		for _, tx := range sb.Body.Transactions {
+			g.spent = append(g.spent, tx.In...)
+		}
+	}
+	if len(made) == 0 {
+		return
+	}
+	if len(made) == 1 {
+		g.emit("exec F " + encodeBlock(&made[0]))
+		return
+	}
+	forged := made[1]
+	switch r.Intn(3) {
+	case 0:
+		forged.Sig = mustSign(forged, true)
+	case 1:
+		forged.Sig[r.Intn(64)] ^= 1 << uint(r.Intn(8))
+	default:
+		if nb, ok := substituteBody(forged); ok {
+			forged = nb
+		} else {
+			forged.Sig = mustSign(forged, true)
+		}
+	}
+	g.emit("exec F " + encodeBlock(&made[1])) // too early
+	g.emit("exec F " + encodeBlock(&made[0]))
+	g.emit("exec F " + encodeBlock(&forged))
+	g.emit("exec F " + encodeBlock(&made[1]))
 }
 
 // lastMade is set by the emit wrapper when a mkblock op returned a block
@@ -1078,10 +1187,23 @@ func (g *genCtx) forged(P, F *node) {
 		when = hb.Head.Time + 3600*uint64(1+r.Intn(5000)) // hours of accrual between the two blocks
 	}
 	g.futureTime = when
+	if g.sweepShared {
+		// an otherwise perfect block whose two transactions share one input that sits at DIFFERENT positions of
+		// their input lists (both orders over the histories of a run): must be refused whatever the positions
+		g.sweepShared = false
+		if a, b, ok := g.sharedInputAt(P, g.sweepSharedPos/3, g.sweepSharedPos%3); ok {
+			sb := forgeBlock(P, coin.Transactions{a, b}, when, 0, nil, secKey)
+			g.execBoth(&sb)
+			when = g.nextWhen()
+			g.futureTime = when
+		}
+	}
 	if g.sweepKind != "" {
 		kind := g.sweepKind
 		g.sweepKind = ""
 		if t, ok := g.makeTxn(P, kind); ok {
+			// the same single-defect transaction at pool admission (hard defects must be refused, soft ones flagged)
+			g.emit("injf F " + txHex(&t))
 			sb := forgeBlock(P, coin.Transactions{t}, when, 0, nil, secKey)
 			g.execBoth(&sb)
 			when = g.nextWhen()
@@ -1246,6 +1368,12 @@ func crashGen(r *Rng, tier string, emit func(string)) {
 
 // sharedLaterInput builds two otherwise valid transactions whose LAST inputs are the same output
 func (g *genCtx) sharedLaterInput(n *node) (coin.Transaction, coin.Transaction, bool) {
+	return g.sharedInputAt(n, g.r.Intn(3), g.r.Intn(3))
+}
+
+// sharedInputAt: two otherwise valid transactions that share one input; pa, pb choose where it sits in each
+// (0 = last of two, 1 = first of two, 2 = alone)
+func (g *genCtx) sharedInputAt(n *node, pa, pb int) (coin.Transaction, coin.Transaction, bool) {
 	uxs, headTime := spendable(n)
 	var ok coin.UxArray
 	for _, u := range uxs {
@@ -1258,13 +1386,12 @@ func (g *genCtx) sharedLaterInput(n *node) (coin.Transaction, coin.Transaction, 
 	}
 	p := g.r.Intn(len(ok))
 	shared, a0, b0 := ok[p], ok[(p+1)%len(ok)], ok[(p+2)%len(ok)]
-	mk := func(first coin.UxOut) coin.Transaction {
-		// the shared output sits at a random position (first / last / alone) of each transaction
+	mk := func(first coin.UxOut, pos int) coin.Transaction {
 		ins := coin.UxArray{first, shared}
-		switch g.r.Intn(3) {
-		case 0:
-			ins = coin.UxArray{shared, first}
+		switch pos {
 		case 1:
+			ins = coin.UxArray{shared, first}
+		case 2:
 			ins = coin.UxArray{shared}
 		}
 		var coins, hours uint64
@@ -1277,5 +1404,5 @@ func (g *genCtx) sharedLaterInput(n *node) (coin.Transaction, coin.Transaction, 
 		outs := []coin.TransactionOutput{{Address: keys[g.r.Intn(6)].addr, Coins: coins, Hours: hours / 4}}
 		return buildTxn(txnSpec{ins: ins, outs: outs, signer: func(i int) cipher.SecKey { return ownerKey(ins[i]) }})
 	}
-	return mk(a0), mk(b0), true
+	return mk(a0, pa), mk(b0, pb), true
 }
